@@ -207,7 +207,7 @@ static void run_fork(void)
 		for (i = 0; i < 4; i++) {	/* the 4th insertion in one bucket queues a lazy resize */
 			cds_lfht_node_init(&pre_nodes[i]);
 			RD_LOCK();
-			cds_lfht_add(pre_ht, (unsigned long)i, &pre_nodes[i]);
+			cds_lfht_add(pre_ht, (unsigned long)(2 * i + 1), &pre_nodes[i]);	/* hashes 1,3,5,7: distinct, none equal to the bucket's */
 			RD_UNLOCK();
 		}
 	}
@@ -237,7 +237,7 @@ static void run_fork(void)
 				n++;
 			VRT_CHECK(n == 4, "child: inherited hash table shows %d of 4 nodes", n);
 			cds_lfht_node_init(&pre_nodes[4]);
-			cds_lfht_add(pre_ht, 4, &pre_nodes[4]);
+			cds_lfht_add(pre_ht, 9, &pre_nodes[4]);
 			RD_UNLOCK();
 			BLOCKING(cds_lfht_resize(pre_ht, 2));
 			pre_ht_teardown("child");
@@ -252,7 +252,7 @@ static void run_fork(void)
 		if (pre_lfht) {
 			cds_lfht_node_init(&pre_nodes[4]);
 			RD_LOCK();
-			cds_lfht_add(pre_ht, 4, &pre_nodes[4]);
+			cds_lfht_add(pre_ht, 9, &pre_nodes[4]);
 			RD_UNLOCK();
 			BLOCKING(cds_lfht_resize(pre_ht, 2));
 			pre_ht_teardown("parent");
